@@ -133,7 +133,7 @@ type Exec struct {
 	deadline    time.Time
 	varBounds   map[int]ival
 	ivMemo      map[int]ival
-	ufTables    map[*Value]*ufTable
+	ufTables   map[*Value][]*ufTable
 	ufOrder     []*ufTable
 	ufFacts     []*Term
 	model       Model
